@@ -110,6 +110,13 @@ fn entry_remove(e: Option<Entry<'_, KeyBytes, u8>>) -> OpResult {
     }
 }
 
+/// Like `KBucket::new`, the node list is allocated with the bucket capacity up front.
+fn nodes_with_capacity(keys: &[KeyBytes], capacity: usize) -> Vec<Node<KeyBytes, u8>> {
+    let mut nodes = Vec::with_capacity(capacity);
+    nodes.extend(keys.iter().map(|k| Node { key: *k, value: 0u8 }));
+    nodes
+}
+
 fn status(connected: bool) -> NodeStatus {
     if connected {
         NodeStatus::Connected
@@ -137,9 +144,8 @@ impl Table {
         pending: Option<(KeyBytes, bool, Instant)>,
         pending_timeout: Duration,
     ) {
-        let nodes = keys.iter().map(|k| Node { key: *k, value: 0u8 }).collect();
         self.0.buckets[idx] = KBucket::verif_from_parts(
-            nodes,
+            nodes_with_capacity(keys, capacity),
             capacity,
             first_connected_pos,
             pending.map(|(k, c, t)| (Node { key: k, value: 0u8 }, status(c), t)),
@@ -228,9 +234,8 @@ impl Bucket {
         pending: Option<(KeyBytes, bool, Instant)>,
         pending_timeout: Duration,
     ) -> Self {
-        let nodes = keys.iter().map(|k| Node { key: *k, value: 0u8 }).collect();
         Bucket(KBucket::verif_from_parts(
-            nodes,
+            nodes_with_capacity(keys, capacity),
             capacity,
             first_connected_pos,
             pending.map(|(k, c, t)| (Node { key: k, value: 0u8 }, status(c), t)),
